@@ -51,7 +51,15 @@ def lexGo : Nat → List Char → List LT → Option (List LT)
       | '.' :: r2 => lexGo f (r2.dropWhile Char.isDigit) (.num (String.ofList (d1 ++ '.' :: r2.takeWhile Char.isDigit)) :: acc)
       | _ => lexGo f r1 (.num (String.ofList d1) :: acc)
     else if isNameStart c then
-      lexGo f (cs.dropWhile isNameChar) (.name (String.ofList (c :: cs.takeWhile isNameChar)) :: acc)
+      let n1 := cs.takeWhile isNameChar
+      let r1 := cs.dropWhile isNameChar
+      -- a prefixed (extension) function name `prefix:local`: one colon followed by a name start character
+      match r1 with
+      | ':' :: c2 :: r2 =>
+        if isNameStart c2 then
+          lexGo f (r2.dropWhile isNameChar) (.name (String.ofList (c :: n1 ++ ':' :: c2 :: r2.takeWhile isNameChar)) :: acc)
+        else lexGo f r1 (.name (String.ofList (c :: n1)) :: acc)
+      | _ => lexGo f r1 (.name (String.ofList (c :: n1)) :: acc)
     else
       let two (s : String) (rest : List Char) := lexGo f rest (.sym s :: acc)
       match c, cs with
